@@ -241,6 +241,10 @@ type req struct {
 	// pass-through / ignorable content that makes the document long (not part of the Coq term: the
 	// handler must answer as for the short request): ReceiverToken hex text, VSExtension.Object,
 	// unknown members, insignificant whitespace
+	// rawMember: name -> raw JSON value of a member of the TYPED payload that encoding/json itself refuses
+	// (wrong JSON kind, number out of range).  The base payload still decodes: class BadMember of the model.
+	rawMember         map[string]string
+	receiverOverride  string
 	recvToken         *string
 	vsObjectPad       int // > 0: "VSExtension":{"VendorID":"0a0b0c","Object":{"pad":"xxx..."}} with that many x
 	unknownPad        int // > 0: unknown members carrying that many bytes of string data
@@ -271,7 +275,9 @@ func (r *req) body() string {
 		}
 	}
 	txt := func(name string, v *string) {
-		if v != nil {
+		if raw, ok := r.rawMember[name]; ok {
+			add(name, raw)
+		} else if v != nil {
 			add(name, jstr(*v))
 		} else if r.null[name] {
 			add(name, "null")
@@ -298,7 +304,9 @@ func (r *req) body() string {
 	txt("DevEUI", r.devEUI)
 	txt("DevAddr", r.devAddr)
 	txt("DLSettings", r.dls)
-	if !(r.omit["RxDelay"] && r.rxDelay == 0) {
+	if raw, ok := r.rawMember["RxDelay"]; ok {
+		add("RxDelay", raw)
+	} else if !(r.omit["RxDelay"] && r.rxDelay == 0) {
 		add("RxDelay", fmt.Sprint(r.rxDelay))
 	}
 	txt("CFList", r.cfl)
@@ -379,7 +387,11 @@ func (r *req) coq() string {
 	if r.raw != "" {
 		return "BadJSON"
 	}
-	return fmt.Sprintf("(Body (mkRequest %s %s %d %s %s %s %s %s %s %s %s))", cq.Str(r.sender), cq.Str(r.receiver), r.txid,
+	ctor := "Body"
+	if len(r.rawMember) > 0 {
+		ctor = "BadMember"
+	}
+	return fmt.Sprintf("(%s (mkRequest %s %s %d %s %s %s %s %s %s %s %s))", ctor, cq.Str(r.sender), cq.Str(r.receiver), r.txid,
 		cq.Str(r.mtype), jval(r.senderToken), jval(r.phy), jval(r.devEUI), jval(r.devAddr), jval(r.dls), cq.Z(r.rxDelay), jval(r.cfl))
 }
 
